@@ -124,11 +124,14 @@ Theorem c25_flag_discipline :
 Proof. exact (flag_discipline Gen_StopFlag.atomic). Qed.
 Print Assumptions c25_flag_discipline.
 
-(* The poll sites of the model are the ones the translator counted in the source. *)
+(* The poll sites of the model are the ones the translator counted in the source, and there is no poll
+   anywhere else: in particular none inside a piece of work the model treats as atomic (eliminateVar,
+   asymmVar, strengthenClause, ... mutate the clause database in several steps; the hypotheses on
+   elim_work speak about the database BETWEEN two polls). *)
 Theorem c25_model_matches_source_polls :
   (Gen_StopFlag.polls_solve, Gen_StopFlag.polls_search) = (model_polls_solve, model_polls_search)
-  /\ 1 <= Gen_StopFlag.polls_eliminate.
-Proof. split; [reflexivity | repeat constructor]. Qed.
+  /\ 1 <= Gen_StopFlag.polls_eliminate /\ Gen_StopFlag.polls_elsewhere = 0.
+Proof. split; [reflexivity | split; [repeat constructor | reflexivity]]. Qed.
 Print Assumptions c25_model_matches_source_polls.
 
 Example c25_nonvacuous :
